@@ -3,10 +3,15 @@
    Proved: (a) gaps and line wrapping do not influence what the reader core extracts (any cutting
    of a row into lines, any punctuation inside it); (b) the run is a function of (name, residues)
    records and the detected kind; (c) the detected kind depends only on the letter counts.
-   The reader layouts of Clustal and MSF and the splitting over several inputs are decided by the
-   correspondence of the reader model with msa_io.c on generated presentations and by comparing
+   (d) the same alignment presented as a FASTA, a Clustal or an MSF file (as kalign writes them) is read
+   as the same (name, residues) records - so, by (b), it is aligned identically.
+   (e) the Clustal reader on ANY block layout (any number of blocks, any widths - also differing from row to row -,
+   blanks and digits inside the residue part, consensus lines between blocks) rebuilds for every sequence the
+   normalised concatenation of its pieces; two layouts of the same rows are read as the same records.
+   MSF layouts of foreign writers, format sniffing of foreign files and the splitting over several inputs are decided by
+   the correspondence of the reader model with msa_io.c on generated presentations and by comparing
    the implementation's results across presentations (DESIGN C04). *)
-From KV Require Import Base FP Params Sort Detect DetectProofs Weave WeaveProofs Cmp Formats FormatsProofs Api.
+From KV Require Import Base FP Params Sort Detect DetectProofs Weave WeaveProofs Cmp Formats FormatsProofs FormatsProofs2 FormatsProofs3 Api.
 Local Open Scope Z_scope.
 
 (* (a) whatever gap characters are interspersed and however the row is wrapped, the residues read
@@ -36,3 +41,66 @@ Theorem C04_kind_ignores_non_letters : forall f1 f2,
   detect_sums f1 = detect_sums f2.
 Proof. exact detect_sums_letters_only. Qed.
 Print Assumptions C04_kind_ignores_non_letters.
+
+
+(* (d) one alignment, three file formats: kalign_read_input returns the same names and residues from each *)
+Theorem C04_same_records_from_every_format : forall version base date protein rows alnlen,
+  clean_line version -> rows <> [] ->
+  title_inert (msf_title base date protein alnlen rows) -> hint_clu (msf_title base date protein alnlen rows) = false ->
+  Forall (fun nr => name_ok (fst nr) /\ good_row (snd nr) /\ length (snd nr) = alnlen /\ (length (fst nr) <= 200)%nat /\ ~ In 47 (fst nr)) rows ->
+  (1 <= alnlen)%nat ->
+  exists mf mc mm,
+    read_one (write_fasta rows) = Some (Some mf) /\
+    read_one (write_clu version alnlen rows) = Some (Some mc) /\
+    read_one (write_msf base date protein alnlen rows) = Some (Some mm) /\
+    records_of (m_recs mf) = residues_of rows /\ records_of (m_recs mc) = residues_of rows /\
+    records_of (m_recs mm) = residues_of rows.
+Proof.
+  intros version base date protein rows alnlen Hv Hne Ht Hc Hall Hlen.
+  assert (Hall2 : Forall (fun nr => name_ok (fst nr) /\ good_row (snd nr) /\ length (snd nr) = alnlen /\ (length (fst nr) <= 200)%nat) rows)
+    by (eapply Forall_impl; [|exact Hall]; cbn beta; tauto).
+  assert (Hall3 : Forall (fun nr => name_ok (fst nr) /\ good_row (snd nr)) rows)
+    by (eapply Forall_impl; [|exact Hall]; cbn beta; tauto).
+  destruct (read_one_written_fasta rows Hne Hall3) as (h & Hf).
+  destruct (read_one_written_clu version rows alnlen Hv Hne Hall2 Hlen) as (mc & Hc1 & _ & Hc3).
+  destruct (msf_roundtrip base date protein rows alnlen Ht Hc Hall Hlen) as (mm & Hm1 & _ & Hm3).
+  exists (mkM (map rec_of rows) h), mc, mm. repeat split; try assumption.
+  cbn [m_recs]. unfold records_of, residues_of. rewrite map_map. apply map_ext_in. intros nr Hin.
+  rewrite Forall_forall in Hall3. destruct (Hall3 nr Hin) as [_ Hg].
+  destruct (rec_of_props nr Hg) as (N & _ & S & _). rewrite N, S. reflexivity.
+Qed.
+Print Assumptions C04_same_records_from_every_format.
+
+(* (e) any Clustal layout.  A row is its name and its pieces (one per block); block j shows piece j of every row
+   after the name and one blank; [seps j] are the lines after block j: empty lines and lines starting with white
+   space (consensus), at least one empty; [lead] are such lines before the first block; [hdr] is any first line. *)
+Theorem C04_clustal_any_layout : forall (rows : list lrow) k seps hdr lead,
+  Forall (fun row => gname_ok (fst row)) rows -> Forall (fun row => length (snd row) = k) rows ->
+  (forall j, seps_ok (seps j)) -> (1 <= k)%nat -> Forall sep_line lead ->
+  exists recs h, read_clu (hdr :: lead ++ body_lines rows k seps) = Some (mkM recs h) /\
+    Forall2 (fun r row => rr_name r = fst row /\ row_of r = norm (List.concat (snd row)) /\
+                          rr_res r = filter isalpha (List.concat (snd row))) recs rows.
+Proof. intros rows k seps hdr lead N P S K L. exact (read_clu_layout rows k seps N P S hdr lead K L). Qed.
+Print Assumptions C04_clustal_any_layout.
+
+Theorem C04_clustal_layouts_agree : forall rows1 rows2 k1 k2 seps1 seps2 hdr1 hdr2 lead1 lead2,
+  Forall (fun row => gname_ok (fst row)) rows1 -> Forall (fun row => length (snd row) = k1) rows1 -> (forall j, seps_ok (seps1 j)) ->
+  Forall (fun row => gname_ok (fst row)) rows2 -> Forall (fun row => length (snd row) = k2) rows2 -> (forall j, seps_ok (seps2 j)) ->
+  (1 <= k1)%nat -> (1 <= k2)%nat -> Forall sep_line lead1 -> Forall sep_line lead2 ->
+  map (fun row => (fst row, filter isalpha (List.concat (snd row)))) rows1 =
+  map (fun row => (fst row, filter isalpha (List.concat (snd row)))) rows2 ->
+  exists m1 m2, read_clu (hdr1 :: lead1 ++ body_lines rows1 k1 seps1) = Some m1 /\
+                read_clu (hdr2 :: lead2 ++ body_lines rows2 k2 seps2) = Some m2 /\
+                records_of (m_recs m1) = records_of (m_recs m2).
+Proof. exact clu_layouts_agree. Qed.
+Print Assumptions C04_clustal_layouts_agree.
+
+(* non-vacuity: two layouts of the same two rows - blocks of 3+2 columns with a consensus line, and one block with
+   blanks and digits inside *)
+Example C04_layouts_instance :
+  let r1 : list lrow := [([115;49], [[65;67;45]; [71;84]]); ([115;50], [[97;45;45]; [71;116]])] in
+  let r2 : list lrow := [([115;49], [[65;67;32;45;71;84;32;53]]); ([115;50], [[97;45;45;32;71;116;32;53]])] in
+  let sp := fun _ : nat => [[32;42;42]; []] in
+  (exists m1 m2, read_clu ([67] :: [[]] ++ body_lines r1 2 sp) = Some m1 /\ read_clu ([67] :: [] ++ body_lines r2 1 sp) = Some m2 /\
+                 records_of (m_recs m1) = records_of (m_recs m2) /\ rows_of (m_recs m1) = rows_of (m_recs m2)).
+Proof. eexists. eexists. split; [vm_compute; reflexivity|split; [vm_compute; reflexivity|split; vm_compute; reflexivity]]. Qed.
